@@ -599,10 +599,14 @@ func TestC18Forest(t *testing.T) {
 type c18CounterCase struct {
 	Table map[string]int
 	Calls []string
+	// tables loaded again later in the history (a handler re-armed for the next run, a default table overridden by a
+	// per-language one): a call "@k" in Calls loads Reloads[k]; from then on the budget of every name in it is the value
+	// just loaded
+	Reloads []map[string]int `json:",omitempty"`
 }
 
 func TestC18Counter(t *testing.T) {
-	rec := vh.NewRecorder(t, "C18", "exploration", "counter part: tables over 4 names with budgets in -3..6 (sometimes 2^40) and histories of <=30 calls incl. an uncounted name; non-trivial = some name is called more often than its budget")
+	rec := vh.NewRecorder(t, "C18", "exploration", "counter part: tables over 4 names with budgets in -3..6 (sometimes 2^40) and histories of <=30 calls incl. an uncounted name, half of them with 1..2 tables loaded again mid-history (AddRange or Add: the budget is then the value just loaded); non-trivial = some name is called more often than its budget")
 	names := []string{"fork", "clone", "vfork", "socket"}
 	vh.Check(t, rec, func(rt *rapid.T) c18CounterCase {
 		c := c18CounterCase{Table: map[string]int{}}
@@ -618,6 +622,17 @@ func TestC18Counter(t *testing.T) {
 		nc := rapid.IntRange(0, 30).Draw(rt, "nc")
 		for i := 0; i < nc; i++ {
 			c.Calls = append(c.Calls, rapid.SampledFrom(append(names, "uncounted")).Draw(rt, "call"))
+		}
+		for nr := rapid.SampledFrom([]int{0, 0, 1, 2}).Draw(rt, "nreloads"); nr > 0 && len(c.Calls) > 0; nr-- {
+			tb := map[string]int{}
+			for _, n := range names {
+				if rapid.Bool().Draw(rt, "rin") {
+					tb[n] = rapid.IntRange(-1, 5).Draw(rt, "rn")
+				}
+			}
+			at := rapid.IntRange(0, len(c.Calls)).Draw(rt, "rat")
+			c.Calls = append(c.Calls[:at], append([]string{fmt.Sprintf("@%d", len(c.Reloads))}, c.Calls[at:]...)...)
+			c.Reloads = append(c.Reloads, tb)
 		}
 		return c
 	}, func(c c18CounterCase) error {
@@ -643,10 +658,33 @@ func TestC18Counter(t *testing.T) {
 		allowed := map[string]int{}
 		refused := map[string]bool{}
 		calls := map[string]int{}
+		table := map[string]int{}
+		for k, v := range c.Table {
+			table[k] = v
+		}
+		reloaded := false
 		for idx, name := range c.Calls {
+			if strings.HasPrefix(name, "@") {
+				var k int
+				fmt.Sscanf(name, "@%d", &k)
+				if k < len(c.Reloads) {
+					if k%2 == 0 {
+						sc.AddRange(c.Reloads[k])
+					} else {
+						for n, v := range c.Reloads[k] {
+							sc.Add(n, v)
+						}
+					}
+					for n, v := range c.Reloads[k] {
+						table[n], allowed[n], refused[n] = v, 0, false
+					}
+					reloaded = true
+				}
+				continue
+			}
 			act := h.CheckSyscall(name)
 			calls[name]++
-			budget, counted := c.Table[name]
+			budget, counted := table[name]
 			if !counted {
 				if act != ptracer.TraceBan {
 					return vh.Violf("C18:uncounted", "call %d %q uncounted: got %v want soft ban", idx, name, act)
@@ -659,7 +697,7 @@ func TestC18Counter(t *testing.T) {
 				}
 				allowed[name]++
 				if max := budget; allowed[name] > max || budget <= 0 {
-					return vh.Violf("C18:counter-budget", "call %d %q allowed %d times, budget %d", idx, name, allowed[name], budget)
+					return vh.Violf("C18:counter-budget", "call %d %q allowed %d times since its budget was last set to %d (history %v, reloads %v)", idx, name, allowed[name], budget, c.Calls[:idx+1], c.Reloads)
 				}
 			} else {
 				refused[name] = true
@@ -671,7 +709,11 @@ func TestC18Counter(t *testing.T) {
 				nt = true
 			}
 		}
-		rec.Case(c, nt)
+		if reloaded {
+			rec.Case(c, nt, "table-loaded-again-mid-history")
+		} else {
+			rec.Case(c, nt)
+		}
 		if nt && rec.WantSample() {
 			rec.Sample(c)
 		}
